@@ -105,12 +105,12 @@ Definition loop_result (r : res) (s : st) (cl : (node -> option node) * (node ->
   | _, _ => False
   end.
 
-Lemma loop_generic (test : env -> st -> option bool) (step : env -> st -> res) :
-  (forall e s cur, lookup "next" e = Some cur -> test e s = Some (negb (is_null cur))) ->
-  (forall e s c, lookup "next" e = Some (Some c) ->
+Lemma loop_generic (x : string) (test : env -> st -> option bool) (step : env -> st -> res) :
+  (forall e s cur, lookup x e = Some cur -> test e s = Some (negb (is_null cur))) ->
+  (forall e s c, lookup x e = Some (Some c) ->
      exists e', step e s = Go e' {| first := first s; prv := upd (prv s) c None; nxt := upd (nxt s) c None; fault := fault s |}
-                /\ lookup "next" e' = Some (nxt s c)) ->
-  forall k e s cur, lookup "next" e = Some cur ->
+                /\ lookup x e' = Some (nxt s c)) ->
+  forall k e s cur, lookup x e = Some cur ->
     loop_result (while_loop test step k e s) s (clear_loop k cur (prv s) (nxt s)).
 Proof.
   intros Ht Hs. induction k as [|k IH]; intros e s cur He; cbn [while_loop clear_loop]; rewrite (Ht e s cur He).
@@ -131,16 +131,16 @@ Ltac exec_steps He :=
 Lemma src_clear_loop n fuel :
   match clear_body with
   | SSeq _ (SSeq _ (SWhile b c)) =>
-      forall k e s cur, lookup "next" e = Some cur ->
+      forall k e s cur, lookup clear_cursor e = Some cur ->
         loop_result (while_loop (fun e s => eval_b n e s b) (exec fuel n c) k e s) s (clear_loop k cur (prv s) (nxt s))
   | _ => False
   end.
 Proof.
-  unfold clear_body. apply loop_generic.
+  unfold clear_body. apply loop_generic; unfold clear_cursor.
   - intros e s cur He. cbn [eval_b eval_p]. rewrite He. reflexivity.
   - intros e s c He. eexists. split.
     + exec_steps He. reflexivity.
-    + env_simpl. reflexivity.
+    + env_simpl. rewrite ?He. reflexivity.
 Qed.
 
 Lemma exec_while fuel n b c e s :
@@ -153,7 +153,9 @@ Proof.
   intros L.
   match goal with |- context [SWhile ?b ?c] => set (W := SWhile b c) end.
   cbn [exec eval_p bind]. subst W. rewrite exec_while.
-  specialize (L fuel [("next", first s)] (set_first s None) (first s) eq_refl).
+  specialize (L fuel [(clear_cursor, first s)] (set_first s None) (first s)).
+  assert (Hl : lookup clear_cursor [(clear_cursor, first s)] = Some (first s)) by reflexivity.
+  specialize (L Hl). clear Hl. unfold clear_cursor in L.
   unfold loop_result in L. cbn [set_first prv nxt first fault] in L.
   destruct (clear_loop fuel (first s) (prv s) (nxt s)) as [[p nx] oof].
   revert L.
